@@ -146,36 +146,18 @@ func c07(r *engine.Report, p *engine.Program) {
 	r.Check("O6-reentrancy", "netceptor: calls made with a lock held", token.NoPos, nre == 0,
 		fmt.Sprintf("%d call sites in package netceptor are made with a lock must-held; none of their (transitive, same-goroutine) callees re-acquires the held lock", nHeldCalls),
 		fmt.Sprintf("%d re-entrant acquisition(s), see the individual obligations", nre))
-	edges := lockOrderGraph(p, scope, lockFields)
-	es := []string{}
-	for _, e := range edges {
-		es = append(es, fmt.Sprintf("%s → %s (%s at %s)", e.From.Name(), e.To.Name(), e.Where, e.Pos))
-	}
-	r.Extra["lock_order_edges"] = es
-	cycles := cyclesIn(edges)
-	if len(cycles) == 0 {
-		r.Add("O6-lockorder", "netceptor lock-order graph", token.NoPos, engine.Discharged, fmt.Sprintf("%d class-level lock-order edges among %d Netceptor lock fields, acyclic", len(edges), len(lockFields)))
-	}
-	for _, cyc := range cycles {
-		s := ""
-		for _, e := range cyc {
-			s += e.From.Name() + " → "
-		}
-		s += cyc[0].From.Name()
-		r.Add("O6-lockorder", "cycle "+s, token.NoPos, engine.Violated, "lock-order cycle: "+fmt.Sprint(func() []string {
-			o := []string{}
-			for _, e := range cyc {
-				o = append(o, fmt.Sprintf("%s→%s in %s at %s", e.From.Name(), e.To.Name(), e.Where, e.Pos))
-			}
-			return o
-		}()))
-	}
+	lockOrderRule(r, p, "O6-lockorder", scope, lockFields)
 	// O6 blocking channel sends performed with a lock must-held (cone only)
 	blockingSendsUnderLock(r, p, "O6-blocking-send", fns)
 	r.Min("O6-blocking-send", 1)
 
 	// O7 positivity of peer-supplied costs (shared with C01-R4)
 	costPositivity(r, p, "O7-cost-positive")
+	{
+		okM, whyM, nM := adjacencyMapsAreFresh(p)
+		r.Check("O2-nil", "knownConnectionCosts: every row is a map made here, never a peer-decoded map", token.NoPos, okM,
+			fmt.Sprintf("%d row installations, all make(map[string]float64)", nM), whyM)
+	}
 
 	// O8 a session that is rejected must not disturb other peers: it never removes the ID it merely
 	// announced (shared with C11-R4)
